@@ -306,7 +306,7 @@ PROPS["C13"] = dict(
     title="YAML streams round-trip through the kio readers/writers; package writes stay inside the package",
     modules=["Kust.Props.C13"],
     theorems=["Kust.C13.untilNewline_spec", "Kust.C13.startsSep_spec", "Kust.C13.scan_flatten", "Kust.C13.split_lossless",
-              "Kust.C13.dotdot_stays", "Kust.C13.cleanSegs_base", "Kust.C13.pkg_write_confined", "Kust.C13.pkg_rejects_absolute"],
+              "Kust.C13.dotdot_stays", "Kust.C13.cleanSegs_base", "Kust.C13.pkg_write_confined", "Kust.C13.pkg_rejects_absolute", "Kust.C13.pkg_delete_confined"],
     components=["kio.split", "kio.pkgpath"],
     oracle=True,
     n_corr={"quick": 3000, "thorough": 40000}, n_oracle={"quick": 600, "thorough": 8000},
